@@ -139,7 +139,8 @@ class Gen:
 
     def seid_literal(self):
         r = self.r
-        return str(r.choice([0, len(self.sess) + 1, len(self.sess) + 1000, 2 ** 31, 2 ** 32, 2 ** 63 - 1, r.randrange(1, 2 ** 63)]))
+        return str(r.choice([0, len(self.sess) + 1, len(self.sess) + 1000, 2 ** 31, 2 ** 32, 2 ** 63 - 1, 2 ** 63, 2 ** 63 + 1, 2 ** 64 - 2, 2 ** 64 - 1,
+                             r.randrange(1, 2 ** 63), r.randrange(2 ** 63, 2 ** 64)]))
 
     def mod_ev(self, pfault=0.0, maxops=4, lit=0.1, no_loose=False, maxid=3):
         r = self.r
